@@ -9,6 +9,8 @@ import traceback
 import warnings
 
 warnings.filterwarnings('ignore')       # third-party deprecation chatter of the repository's own dependencies
+import logging
+logging.disable(logging.CRITICAL)       # the library logs every rejected input; verdicts are reported by this driver only
 
 HERE = os.path.dirname(os.path.dirname(os.path.abspath(__file__)))
 sys.path.insert(0, HERE)
